@@ -1,0 +1,73 @@
+//go:build verif
+
+// Contracts (machine-checked by /verif/govc) for the pigeon command (package main). Comment-only file.
+// What is decided for C13 here: every path of main() on which argument parsing, the grammar parse,
+// the build, formatting or writing reported an error leaves through exit(k) with k != 0, and exit(0)
+// is only ever called for the help page ("a grammar that is rejected never produces exit status 0").
+// exit is modelled as not returning (no deferred call runs), as os.Exit does.
+
+package main
+
+//@ extern var.exit(code int)
+//@   noreturn
+
+//@ extern flag.NewFlagSet(name string, h flag.ErrorHandling) (fset *flag.FlagSet)
+//@   ensures fset != nil
+//@ extern flag.FlagSet.Bool(f *flag.FlagSet, name string, value bool, usage string) (bp *bool)
+//@   ensures bp != nil
+//@ extern flag.FlagSet.String(f *flag.FlagSet, name string, value string, usage string) (sp *string)
+//@   ensures sp != nil
+//@ extern flag.FlagSet.Var(f *flag.FlagSet, value flag.Value, name string, usage string)
+//@ extern flag.FlagSet.Parse(f *flag.FlagSet, arguments []string) (perr error)
+//@ extern flag.FlagSet.NArg(f *flag.FlagSet) (n int)
+//@   pure
+//@   ensures n >= 0
+//@ extern flag.FlagSet.Args(f *flag.FlagSet) (a []string)
+//@   pure
+//@ extern flag.FlagSet.Arg(f *flag.FlagSet, i int) (a string)
+//@   pure
+//@ extern FlagSet.Usage()
+//@ extern usage()
+
+//@ extern input(filename string) (nm string, rc io.ReadCloser)
+//@   ensures rc != nil
+//@ extern output(filename string) (wc io.WriteCloser)
+//@   ensures wc != nil
+//@ extern io.ReadCloser.Close(c io.ReadCloser) (cerr error)
+//@ extern io.WriteCloser.Close(c io.WriteCloser) (cerr2 error)
+//@ extern io.WriteCloser.Write(c io.WriteCloser, b []byte) (n int, werr error)
+
+//@ extern Debug(b bool) (o Option)
+//@ extern Memoize(b bool) (o Option)
+//@ extern Recover(b bool) (o Option)
+//@ extern ParseReader(filename string, r io.Reader, opts []Option) (g any, gerr error)
+//@   ensures gerr == nil ==> is(g, "*ast.Grammar") && as(g, "*ast.Grammar") != nil
+
+//@ extern ast.Optimize(g *ast.Grammar, alternateEntrypoints []string)
+//@ extern bytes.NewBuffer(buf []byte) (b *bytes.Buffer)
+//@   ensures b != nil
+//@ extern bytes.Buffer.Bytes(b *bytes.Buffer) (bs []byte)
+//@ extern builder.ReceiverName(nm string) (o builder.Option)
+//@ extern builder.Optimize(optimize bool) (o builder.Option)
+//@ extern builder.BasicLatinLookupTable(x bool) (o builder.Option)
+//@ extern builder.Nolint(x bool) (o builder.Option)
+//@ extern builder.SupportLeftRecursion(x bool) (o builder.Option)
+//@ extern builder.BuildParser(w io.Writer, g *ast.Grammar, opts []builder.Option) (berr error)
+//@ extern imports.Process(filename string, src []byte, opt *imports.Options) (formatted []byte, ferr error)
+
+//@ func argError(exitCode int, msg string, args []any)
+//@   requires [code C13] exitCode != 0
+//@   nosafety
+//@   before var.exit assert [nonzero C13] code != 0
+
+//@ func main()
+//@   nosafety
+//@   modifies all flag.FlagSet.Usage
+// exit status 0 is only produced for the help page
+//@   before var.exit assert [zero-only-for-help C13] code != 0 || *shortHelpFlag || *longHelpFlag
+// no normally ending run has seen a rejection
+//@   all-calls flag.FlagSet.Parse [args-error-exits C13] perr == nil
+//@   all-calls ParseReader [parse-error-exits C13] gerr == nil
+//@   all-calls builder.BuildParser [build-error-exits C13] berr == nil
+//@   all-calls imports.Process [format-error-exits C13] ferr == nil
+//@   all-calls io.WriteCloser.Write [write-error-exits C13] werr == nil
